@@ -40,6 +40,9 @@ lib/Trig.vos lib/Trig.vok lib/Trig.required_vos: lib/Trig.v lib/Lib.vos lib/RLib
 lib/ULib.vo lib/ULib.glob lib/ULib.v.beautified lib/ULib.required_vo: lib/ULib.v lib/Lib.vo
 lib/ULib.vio: lib/ULib.v lib/Lib.vio
 lib/ULib.vos lib/ULib.vok lib/ULib.required_vos: lib/ULib.v lib/Lib.vos
+model/Ctor.vo model/Ctor.glob model/Ctor.v.beautified model/Ctor.required_vo: model/Ctor.v 
+model/Ctor.vio: model/Ctor.v 
+model/Ctor.vos model/Ctor.vok model/Ctor.required_vos: model/Ctor.v 
 model/ObjChecks.vo model/ObjChecks.glob model/ObjChecks.v.beautified model/ObjChecks.required_vo: model/ObjChecks.v model/ObjModel.vo gen/ObjNames.vo gen/ObjApi.vo
 model/ObjChecks.vio: model/ObjChecks.v model/ObjModel.vio gen/ObjNames.vio gen/ObjApi.vio
 model/ObjChecks.vos model/ObjChecks.vok model/ObjChecks.required_vos: model/ObjChecks.v model/ObjModel.vos gen/ObjNames.vos gen/ObjApi.vos
@@ -109,6 +112,9 @@ props/C04.vos props/C04.vok props/C04.required_vos: props/C04.v lib/Lib.vos lib/
 props/C05.vo props/C05.glob props/C05.v.beautified props/C05.required_vo: props/C05.v lib/Lib.vo lib/ULib.vo gen/Totality.vo model/ObjModel.vo gen/ObjNames.vo gen/ObjApi.vo gen/ObjApiBin.vo model/ObjChecks.vo model/ObjChecksBin.vo
 props/C05.vio: props/C05.v lib/Lib.vio lib/ULib.vio gen/Totality.vio model/ObjModel.vio gen/ObjNames.vio gen/ObjApi.vio gen/ObjApiBin.vio model/ObjChecks.vio model/ObjChecksBin.vio
 props/C05.vos props/C05.vok props/C05.required_vos: props/C05.v lib/Lib.vos lib/ULib.vos gen/Totality.vos model/ObjModel.vos gen/ObjNames.vos gen/ObjApi.vos gen/ObjApiBin.vos model/ObjChecks.vos model/ObjChecksBin.vos
+props/C06.vo props/C06.glob props/C06.v.beautified props/C06.required_vo: props/C06.v model/Ctor.vo
+props/C06.vio: props/C06.v model/Ctor.vio
+props/C06.vos props/C06.vok props/C06.required_vos: props/C06.v model/Ctor.vos
 props/C09.vo props/C09.glob props/C09.v.beautified props/C09.required_vo: props/C09.v lib/Lib.vo lib/RLib.vo lib/Spec.vo gen/Compute.vo gen/Tables.vo proofs/C09_boost.vo proofs/C09_boost2.vo
 props/C09.vio: props/C09.v lib/Lib.vio lib/RLib.vio lib/Spec.vio gen/Compute.vio gen/Tables.vio proofs/C09_boost.vio proofs/C09_boost2.vio
 props/C09.vos props/C09.vok props/C09.required_vos: props/C09.v lib/Lib.vos lib/RLib.vos lib/Spec.vos gen/Compute.vos gen/Tables.vos proofs/C09_boost.vos proofs/C09_boost2.vos
